@@ -755,3 +755,332 @@ Proof.
   apply andb_true_iff in Hwf. destruct Hwf as [Hh Hps].
   apply bytes_ok_app; [now apply m_header_bytes | now apply m_payloads_bytes].
 Qed.
+
+(* ================= everything Unmarshal accepts is well-formed ================= *)
+
+(* [okp P r]: if r is a value, the value satisfies P *)
+Definition okp {A} (P : A -> Prop) (r : res A) : Prop :=
+  match r with Ok a => P a | _ => True end.
+
+Lemma okp_bind {A B} (P : B -> Prop) (r : res A) (k : A -> res B) :
+  okp (fun a => okp P (k a)) r -> okp P (bind r k).
+Proof. destruct r; cbn [okp bind]; auto. Qed.
+
+Lemma okp_mono {A} (P Q : A -> Prop) (r : res A) : (forall a, P a -> Q a) -> okp P r -> okp Q r.
+Proof. destruct r; cbn [okp]; auto. Qed.
+
+Lemma bytes_ok_nnth l i x : bytes_ok l -> nnth i l = Some x -> x < 256.
+Proof.
+  unfold bytes_ok. intros Hl. revert i. induction Hl as [|y t Hy Ht IH]; intros i; cbn [nnth]; [discriminate|].
+  destruct (i =? 0); [intros [= <-]; exact Hy | apply IH].
+Qed.
+
+Lemma bytes_ok_ntake n l : bytes_ok l -> bytes_ok (ntake n l).
+Proof.
+  unfold bytes_ok. intros H. rewrite <- (ntake_ndrop n l) in H. apply Forall_app in H. apply H.
+Qed.
+Lemma bytes_ok_ndrop n l : bytes_ok l -> bytes_ok (ndrop n l).
+Proof.
+  unfold bytes_ok. intros H. rewrite <- (ntake_ndrop n l) in H. apply Forall_app in H. apply H.
+Qed.
+
+Lemma okp_idx (P : N -> Prop) l i : bytes_ok l -> (forall x, x < 256 -> P x) -> okp P (idx l i).
+Proof.
+  intros Hl HP. unfold idx. destruct (nnth i l) as [x|] eqn:E; cbn [okp]; [|exact I].
+  apply HP. eapply bytes_ok_nnth; eauto.
+Qed.
+
+Lemma okp_slice (P : list N -> Prop) l i j : bytes_ok l ->
+  (forall s, bytes_ok s -> nlen s = j - i -> i <= j -> j <= nlen l -> P s) -> okp P (slice l i j).
+Proof.
+  intros Hl HP. unfold slice, nsub.
+  destruct (N.leb_spec i j); cbn [andb okp]; [|exact I].
+  destruct (N.leb_spec j (nlen l)); cbn [okp]; [|exact I].
+  apply HP; try assumption.
+  - apply bytes_ok_ntake, bytes_ok_ndrop, Hl.
+  - rewrite nlen_ntake, nlen_ndrop. lia.
+Qed.
+
+Lemma okp_slice_from (P : list N -> Prop) l i : bytes_ok l ->
+  (forall s, bytes_ok s -> nlen s = nlen l - i -> i <= nlen l -> P s) -> okp P (slice_from l i).
+Proof. intros Hl HP. unfold slice_from. apply okp_slice; [exact Hl|]. intros s Hs Hn Hi _. now apply HP. Qed.
+
+Lemma bytes_okb_of l : bytes_ok l -> bytes_okb l = true.
+Proof.
+  unfold bytes_ok, bytes_okb. rewrite forallb_forall, Forall_forall.
+  intros H x Hx. apply N.ltb_lt. now apply H.
+Qed.
+
+Ltac wstep :=
+  lazymatch goal with
+  | |- okp _ (bind (idx ?l ?i) _) =>
+      let x := fresh "x" in let Hx := fresh "Hx" in
+      apply okp_bind, okp_idx; [assumption | intros x Hx]
+  | |- okp _ (bind (slice_from ?l ?i) _) =>
+      let s := fresh "s" in let Hs := fresh "Hs" in let Hn := fresh "Hn" in let Hi := fresh "Hi" in
+      apply okp_bind, okp_slice_from; [assumption | intros s Hs Hn Hi]
+  | |- okp _ (bind (slice ?l ?i ?j) _) =>
+      let s := fresh "s" in let Hs := fresh "Hs" in let Hn := fresh "Hn" in
+      let Hi := fresh "Hi" in let Hj := fresh "Hj" in
+      apply okp_bind, okp_slice; [assumption | intros s Hs Hn Hi Hj]
+  | |- okp _ (if ?a <? ?b then Err else _) =>
+      let H := fresh "Hc" in destruct (N.ltb_spec a b) as [H|H]; [exact I|]
+  | |- okp _ (if negb (?a =? ?b) then Err else _) =>
+      let H := fresh "Hc" in destruct (N.eqb_spec a b) as [H|H]; cbn [negb]; [|exact I]
+  | |- okp _ (if ?c then Err else _) =>
+      let H := fresh "Hc" in destruct c eqn:H; [exact I|]
+  end.
+
+Lemma be16_lt a b : a < 256 -> b < 256 -> be16 a b < 65536.
+Proof. unfold be16. lia. Qed.
+Lemma be32_lt a b c d : a < 256 -> b < 256 -> c < 256 -> d < 256 -> be32 a b c d < 4294967296.
+Proof. unfold be32. lia. Qed.
+Lemma be64_lt a b c d e f g h : a < 256 -> b < 256 -> c < 256 -> d < 256 -> e < 256 -> f < 256 ->
+  g < 256 -> h < 256 -> be64 a b c d e f g h < 18446744073709551616.
+Proof. unfold be64. lia. Qed.
+
+Lemma get_be32_okp (P : N -> Prop) buf n : bytes_ok buf -> (forall x, x < 4294967296 -> P x) ->
+  okp P (get_be32 buf n).
+Proof. intros Hb HP. unfold get_be32. do 4 wstep. cbn [okp]. apply HP. now apply be32_lt. Qed.
+
+Lemma um_map_wf : forall fuel buf k n, bytes_ok buf ->
+  okp (fun r => nlen (fst r) = k /\ forallb wf_srtp_id (fst r) = true) (um_map fuel buf k n).
+Proof.
+  induction fuel as [|f fuel IH]; intros buf k n Hb; cbn [um_map].
+  - destruct (N.eqb_spec k 0); cbn [okp fst nlen forallb]; [split; [lia|reflexivity] | exact I].
+  - destruct (N.eqb_spec k 0) as [->|Hk]; [cbn [okp fst nlen forallb]; split; reflexivity|].
+    wstep.
+    apply okp_bind, get_be32_okp; [assumption|]; intros s Hs.
+    apply okp_bind, get_be32_okp; [assumption|]; intros r Hr.
+    apply okp_bind. eapply okp_mono; [|apply (IH buf (N.pred k) (n + 9) Hb)].
+    intros [rest n'] [Hl Hw]; cbn [fst okp nlen forallb] in *. split; [lia|].
+    rewrite Hw. unfold wf_srtp_id. cbn [policy_no ssrc roc].
+    destruct (N.ltb_spec x 256); [|lia]. destruct (N.ltb_spec s 4294967296); [|lia].
+    destruct (N.ltb_spec r 4294967296); [|lia]. reflexivity.
+Qed.
+
+Lemma um_header_wf buf : bytes_ok buf ->
+  okp (fun r => wf_header (fst (fst r)) = true) (um_header buf).
+Proof.
+  intros Hb. unfold um_header. wstep. do 2 wstep. do 2 wstep. do 2 wstep.
+  destruct (negb (N.shiftr x2 7 =? 0)) eqn:Hv; [exact I|]. wstep.
+  apply okp_bind, get_be32_okp; [assumption|]; intros csb Hcsb.
+  do 2 wstep. wstep. wstep. wstep.
+  apply okp_bind. eapply okp_mono; [|apply (um_map_wf buf buf x3 10 Hb)].
+  intros [mi n] [Hl Hw]; cbn [fst okp] in *.
+  unfold wf_header. cbn [version data_type v_flag prf_func csb_id map_type map_info].
+  rewrite Hw, Hc2. subst x x0 x4. rewrite !N.eqb_refl. cbn [negb andb].
+  destruct (N.ltb_spec csb 4294967296); [|lia]. destruct (N.leb_spec (nlen mi) 255); [|lia]. reflexivity.
+Qed.
+
+Lemma um_key_data_wf buf : bytes_ok buf ->
+  okp (fun r => wf_key_data (fst r) = true /\ snd r = kd_size (fst r)) (um_key_data buf).
+Proof.
+  intros Hb. unfold um_key_data. wstep. wstep.
+  set (t := N.shiftr _ _). set (kv := N.land _ _).
+  wstep. wstep. do 2 wstep. wstep. wstep. wstep.
+  assert (Hk : be16 x0 x1 < 65536) by now apply be16_lt.
+  apply andb_false_iff in Hc1.
+  destruct (N.eqb_spec kv mikey_kv_spi) as [Hkv|Hkv].
+  - wstep. wstep. wstep. wstep. wstep. wstep. cbn [okp fst snd].
+    unfold wf_key_data, kd_size. cbn [kd_type kd_kv kd_key kd_spi].
+    rewrite Hc0, Hkv, !N.eqb_refl, (bytes_okb_of s0), (bytes_okb_of s3) by assumption.
+    destruct (N.leb_spec (nlen s3) 255); [|lia]. destruct (N.leb_spec (nlen s0) 65535); [|lia].
+    rewrite orb_true_r. cbn [andb]. split; [reflexivity|lia].
+  - cbn [okp fst snd]. unfold wf_key_data, kd_size. cbn [kd_type kd_kv kd_key kd_spi is_nil nlen].
+    change (bytes_okb []) with true.
+    assert (Hkv0 : kv = mikey_kv_null).
+    { destruct Hc1 as [Hc1|Hc1]; apply negb_false_iff in Hc1;
+        [apply N.eqb_eq in Hc1; assumption | first [discriminate Hc1 | apply N.eqb_eq in Hc1; contradiction]]. }
+    rewrite Hc0, Hkv0, !N.eqb_refl, (bytes_okb_of s0) by assumption.
+    destruct (N.leb_spec (nlen s0) 65535); [|lia].
+    destruct (N.eqb_spec mikey_kv_null mikey_kv_spi) as [E|E]; [discriminate E|].
+    cbn [andb orb]. split; [reflexivity|lia].
+Qed.
+
+Lemma um_subs_wf : forall fuel ed sn, bytes_ok ed ->
+  okp (fun r => forallb wf_key_data (fst r) = true /\ fst r <> [] /\ snd r = sn + encr_len (fst r))
+      (um_subs fuel ed sn).
+Proof.
+  induction fuel as [|f fuel IH]; intros ed sn Hb; cbn [um_subs]; [exact I|].
+  wstep. apply okp_bind. eapply okp_mono; [|apply (um_key_data_wf s Hs)].
+  intros [kd l] [Hkd Hl]; cbn [fst snd] in Hkd, Hl.
+  wstep. destruct (x =? 0).
+  - cbn [okp fst snd forallb encr_len]. rewrite Hkd. repeat split; [discriminate|lia].
+  - wstep. apply okp_bind. eapply okp_mono; [|apply (IH ed (sn + l) Hb)].
+    intros [rest sn'] (Hw & Hne & Hsn); cbn [fst snd okp forallb encr_len] in *.
+    rewrite Hkd, Hw. repeat split; [discriminate|lia].
+Qed.
+
+Lemma um_kemac_wf buf : bytes_ok buf -> okp (fun r => wf_payload (fst r) = true) (um_kemac buf).
+Proof.
+  intros Hb. unfold um_kemac. wstep. do 2 wstep. do 2 wstep. wstep. wstep. wstep.
+  apply okp_bind. eapply okp_mono; [|apply (um_subs_wf (0 :: s0) s0 0 Hs0)].
+  intros [subs sn] (Hw & Hne & Hsn); cbn [fst snd] in *.
+  wstep. wstep. wstep. cbn [okp fst wf_payload].
+  assert (Hk : be16 x0 x1 < 65536) by now apply be16_lt.
+  rewrite Hw, Hc0, Hc3, !N.eqb_refl. destruct subs; [congruence|]. cbn [is_nil negb andb].
+  apply N.leb_le. lia.
+Qed.
+
+Lemma um_t_wf buf : bytes_ok buf -> okp (fun r => wf_payload (fst r) = true) (um_t buf).
+Proof.
+  intros Hb. unfold um_t. wstep. do 2 wstep. do 8 wstep. cbn [okp fst wf_payload].
+  rewrite Hc0. cbn [N.eqb andb]. apply N.ltb_lt. now apply be64_lt.
+Qed.
+
+Lemma um_sp_params_wf : forall fuel buf n end_, bytes_ok buf ->
+  okp (fun r => forallb wf_param (fst r) = true /\ snd r = n + params_len (fst r) /\ snd r = end_)
+      (um_sp_params fuel buf n end_).
+Proof.
+  induction fuel as [|f fuel IH]; intros buf n end_ Hb; cbn [um_sp_params].
+  - wstep. destruct (N.eqb_spec n end_); [|exact I]. cbn [okp fst snd forallb params_len]. repeat split; lia.
+  - wstep. destruct (N.eqb_spec n end_); [cbn [okp fst snd forallb params_len]; repeat split; lia|].
+    wstep. wstep. do 2 wstep. wstep. wstep. wstep.
+    apply okp_bind. eapply okp_mono; [|apply (IH buf (n + 2 + x0) end_ Hb)].
+    intros [rest n'] (Hw & Hn' & He); cbn [fst snd okp forallb params_len] in *.
+    rewrite Hw. unfold wf_param. cbn [fst snd]. rewrite (bytes_okb_of s1) by assumption.
+    destruct (N.ltb_spec x 256); [|lia]. destruct (N.leb_spec (nlen s1) 255); [|lia].
+    repeat split; [lia|assumption].
+Qed.
+
+Lemma um_sp_wf buf : bytes_ok buf -> okp (fun r => wf_payload (fst r) = true) (um_sp buf).
+Proof.
+  intros Hb. unfold um_sp. wstep. do 2 wstep. wstep. do 2 wstep.
+  apply okp_bind. eapply okp_mono; [|apply (um_sp_params_wf buf buf 5 (5 + be16 x1 x2) Hb)].
+  intros [ps n] (Hw & Hn & He); cbn [fst snd okp wf_payload] in *.
+  assert (Hk : be16 x1 x2 < 65536) by now apply be16_lt.
+  rewrite Hw, Hc0. destruct (N.ltb_spec x 256); [|lia]. cbn [N.eqb andb]. apply N.leb_le. lia.
+Qed.
+
+Lemma um_rand_wf buf : bytes_ok buf -> okp (fun r => wf_payload (fst r) = true) (um_rand buf).
+Proof.
+  intros Hb. unfold um_rand. wstep. wstep. wstep. wstep. wstep. wstep. cbn [okp fst wf_payload].
+  rewrite (bytes_okb_of s0) by assumption.
+  destruct (N.leb_spec 16 (nlen s0)); [|lia]. destruct (N.leb_spec (nlen s0) 255); [|lia]. reflexivity.
+Qed.
+
+Lemma um_payload_wf t buf : bytes_ok buf -> okp (fun r => wf_payload (fst r) = true) (um_payload t buf).
+Proof.
+  intros Hb. unfold um_payload.
+  destruct (t =? mikey_pt_kemac); [now apply um_kemac_wf|].
+  destruct (t =? mikey_pt_t); [now apply um_t_wf|].
+  destruct (t =? mikey_pt_sp); [now apply um_sp_wf|].
+  destruct (t =? mikey_pt_rand); [now apply um_rand_wf|exact I].
+Qed.
+
+Lemma um_payloads_wf : forall fuel buf n npt, bytes_ok buf ->
+  okp (fun r => forallb wf_payload (fst r) = true) (um_payloads fuel buf n npt).
+Proof.
+  induction fuel as [|f fuel IH]; intros buf n npt Hb; cbn [um_payloads].
+  - destruct (npt =? 0); [reflexivity|exact I].
+  - destruct (npt =? 0); [reflexivity|].
+    wstep. wstep. apply okp_bind. eapply okp_mono; [|apply (um_payload_wf npt s Hs)].
+    intros [p l] Hp; cbn [fst] in Hp.
+    wstep. apply okp_bind. eapply okp_mono; [|apply (IH buf (n + l) x Hb)].
+    intros [rest n'] Hw; cbn [fst okp forallb] in *. now rewrite Hp, Hw.
+Qed.
+
+(* Every value produced by Unmarshal from a byte string is well-formed: wf_message is not only sufficient
+   for the round trip, it is exactly the set of values the parser can produce. *)
+Theorem mikey_unmarshal_wf : forall b m, bytes_ok b -> mikey_unmarshal b = Ok m -> wf_message m = true.
+Proof.
+  intros b m Hb Hm.
+  assert (H : okp (fun m => wf_message m = true) (mikey_unmarshal b)).
+  { unfold mikey_unmarshal. apply okp_bind. eapply okp_mono; [|apply (um_header_wf b Hb)].
+    intros [[h n] np] Hh; cbn [fst] in Hh.
+    apply okp_bind. eapply okp_mono; [|apply (um_payloads_wf b b n np Hb)].
+    intros [ps n'] Hps; cbn [fst] in Hps.
+    assert (Hw : wf_message (mkMessage h ps) = true)
+      by (unfold wf_message; cbn [msg_header msg_payloads]; now rewrite Hh, Hps).
+    destruct (n' + 1 <? nlen b); [|exact Hw].
+    wstep. destruct (negb (x =? 0)); [exact I|exact Hw]. }
+  rewrite Hm in H. exact H.
+Qed.
+
+(* parse ; marshal ; parse = parse : a parsed message marshals to bytes that parse to the same message *)
+Theorem mikey_reparse : forall b m, bytes_ok b -> mikey_unmarshal b = Ok m ->
+  mikey_unmarshal (mikey_marshal m) = Ok m.
+Proof. intros b m Hb Hm. apply mikey_roundtrip. eapply mikey_unmarshal_wf; eauto. Qed.
+
+(* ================= the wire encoding of values is injective: dec (enc m ++ rest) = (m, rest) ================= *)
+
+Lemma getl_putl x r : getl (putl x ++ r) = Some (x, r).
+Proof.
+  unfold getl, putl. cbn [app]. rewrite nlen_app.
+  destruct (N.leb_spec (nlen x) (nlen x + nlen r)); [|lia].
+  now rewrite ntake_app_exact, ndrop_app_exact.
+Qed.
+
+Lemma dec_list_enc {A} (d : list N -> option (A * list N)) (e : A -> list N) :
+  (forall x r, d (e x ++ r) = Some (x, r)) -> (forall x, 1 <= nlen (e x)) ->
+  forall xs fuel rest, nlen xs <= nlen fuel ->
+  dec_list d fuel (nlen xs) (concat (map e xs) ++ rest) = Some (xs, rest).
+Proof.
+  intros Hd He. induction xs as [|x xs IH]; intros fuel rest Hf.
+  - cbn [nlen]. destruct fuel; reflexivity.
+  - destruct fuel as [|f fuel]; cbn [nlen] in Hf; [lia|].
+    cbn [dec_list nlen map concat]. destruct (N.eqb_spec (N.succ (nlen xs)) 0); [lia|].
+    rewrite <- app_assoc, Hd, N.pred_succ, IH by lia. reflexivity.
+Qed.
+
+Lemma nlen_concat_ge {A} (e : A -> list N) xs : (forall x, 1 <= nlen (e x)) -> nlen xs <= nlen (concat (map e xs)).
+Proof.
+  intros He. induction xs as [|x xs IH]; cbn [nlen map concat]; [lia|].
+  rewrite nlen_app. pose proof (He x). lia.
+Qed.
+
+Lemma dec_enc_srtp_id e r : dec_srtp_id (enc_srtp_id e ++ r) = Some (e, r).
+Proof. destruct e. reflexivity. Qed.
+
+Lemma dec_enc_key_data kd r : dec_key_data (enc_key_data kd ++ r) = Some (kd, r).
+Proof.
+  destruct kd as [t kv key spi]. unfold enc_key_data, dec_key_data. cbn [kd_type kd_kv kd_key kd_spi app].
+  now rewrite <- app_assoc, getl_putl, getl_putl.
+Qed.
+
+Lemma dec_enc_param p r : dec_param (enc_param p ++ r) = Some (p, r).
+Proof. destruct p as [t v]. unfold enc_param, dec_param. cbn [fst snd app]. now rewrite getl_putl. Qed.
+
+Lemma dec_enc_header h r : dec_header (enc_header h ++ r) = Some (h, r).
+Proof.
+  destruct h as [ver dt v prf csb mt mi]. unfold enc_header, dec_header.
+  cbn [version data_type v_flag prf_func csb_id map_type map_info app].
+  rewrite (dec_list_enc dec_srtp_id enc_srtp_id dec_enc_srtp_id).
+  - destruct v; reflexivity.
+  - intros e. cbn [enc_srtp_id nlen]. lia.
+  - rewrite nlen_app. pose proof (nlen_concat_ge enc_srtp_id mi). cbn [enc_srtp_id nlen] in H.
+    assert (forall x : srtp_id, 1 <= 3) by (intros; lia). specialize (H H0). lia.
+Qed.
+
+Lemma dec_enc_payload p r : dec_payload (enc_payload p ++ r) = Some (p, r).
+Proof.
+  destruct p as [e subs m|ty v|pn pr ps|d]; unfold enc_payload, dec_payload; cbn [app N.eqb Pos.eqb].
+  - rewrite <- app_assoc. rewrite (dec_list_enc dec_key_data enc_key_data dec_enc_key_data).
+    + reflexivity.
+    + intros kd. unfold enc_key_data. rewrite nlen_app. cbn [nlen]. lia.
+    + rewrite nlen_app.
+      assert (He : forall kd, 1 <= nlen (enc_key_data kd))
+        by (intros kd; unfold enc_key_data; rewrite nlen_app; cbn [nlen]; lia).
+      pose proof (nlen_concat_ge enc_key_data subs He). lia.
+  - reflexivity.
+  - rewrite (dec_list_enc dec_param enc_param dec_enc_param).
+    + reflexivity.
+    + intros p. unfold enc_param. cbn [nlen]. lia.
+    + rewrite nlen_app.
+      assert (He : forall p, 1 <= nlen (enc_param p)) by (intros p; unfold enc_param; cbn [nlen]; lia).
+      pose proof (nlen_concat_ge enc_param ps He). lia.
+  - now rewrite getl_putl.
+Qed.
+
+Theorem dec_enc_message : forall m rest, dec_message (enc_message m ++ rest) = Some (m, rest).
+Proof.
+  intros [h ps] rest. unfold enc_message, dec_message. cbn [msg_header msg_payloads].
+  rewrite <- app_assoc, dec_enc_header. cbn [app].
+  rewrite (dec_list_enc dec_payload enc_payload dec_enc_payload).
+  - reflexivity.
+  - intros p. destruct p; cbn [enc_payload nlen app]; lia.
+  - rewrite nlen_app.
+    assert (He : forall p, 1 <= nlen (enc_payload p)) by (intros p; destruct p; cbn [enc_payload nlen app]; lia).
+    pose proof (nlen_concat_ge enc_payload ps He). lia.
+Qed.
